@@ -3,48 +3,30 @@ package main
 import (
 	"bytes"
 	"fmt"
-	"net"
 
 	"github.com/gopacket/gopacket"
 	"github.com/gopacket/gopacket/layers"
 
+	"verif/engine/cons"
 	"verif/engine/enum"
 	"verif/engine/report"
 )
-
-// A constructed case: a list of layers built from in-range field values, written with
-// SerializeLayers (FixLengths + ComputeChecksums) and decoded from its first layer.
-type built struct {
-	desc  string
-	first gopacket.LayerType
-	ls    []gopacket.SerializableLayer
-	pay   []byte
-	// expected decoded type sequence may contain layers the caller did not list explicitly
-	// (a hop-by-hop header given through IPv6.HopByHop): types to ignore when aligning
-	implicit map[gopacket.LayerType]bool
-}
-
-var (
-	s4 = net.IP{10, 0, 0, 1}
-	d4 = net.IP{10, 0, 0, 2}
-	s6 = net.ParseIP("2001:db8::1")
-	d6 = net.ParseIP("2001:db8::2")
-)
-
-func payloadN(n int) []byte {
-	p := make([]byte, n)
-	for i := range p {
-		p[i] = byte(i*7 + 3)
-	}
-	return p
-}
 
 // shared serialize buffer: SerializeLayers clears it, so a correct library gives the same
 // result as with a fresh buffer; stale state surviving Clear shows up here
 var shared = gopacket.NewSerializeBuffer()
 
-func check(b built, w *enum.Worker) {
+func check(c cons.Case, w *enum.Worker) {
 	w.Guard("harness", func() {
+		var b struct {
+			desc     string
+			first    gopacket.LayerType
+			ls       []gopacket.SerializableLayer
+			pay      []byte
+			implicit map[gopacket.LayerType]bool
+		}
+		b.desc, b.first, b.implicit = c.Desc, c.First, c.Implicit
+		b.ls, b.pay = c.Make()
 		w.Count("constructed", 1)
 		all := append(append([]gopacket.SerializableLayer(nil), b.ls...), gopacket.Payload(b.pay))
 		var nl gopacket.NetworkLayer
@@ -63,12 +45,12 @@ func check(b built, w *enum.Worker) {
 			return
 		}
 		if err != nil {
-			w.Violation("c06|constructed|serialize-error|"+familyOf(b.desc), fmt.Sprintf("%s: %v", b.desc, err))
+			w.Violation("c06|constructed|serialize-error|"+cons.FamilyOf(b.desc), fmt.Sprintf("%s: %v", b.desc, err))
 			return
 		}
 		y := append([]byte(nil), shared.Bytes()...)
 		p := gopacket.NewPacket(y, b.first, gopacket.DecodeOptions{DecodeStreamsAsDatagrams: true})
-		fam := familyOf(b.desc)
+		fam := cons.FamilyOf(b.desc)
 		if el := p.ErrorLayer(); el != nil {
 			w.Violation("c06|constructed|decode-error|"+fam, fmt.Sprintf("%s: the written bytes do not decode: %v", b.desc, el.Error()))
 			return
@@ -113,241 +95,11 @@ func check(b built, w *enum.Worker) {
 	})
 }
 
-func familyOf(desc string) string {
-	for i := range desc {
-		if desc[i] == ':' {
-			return desc[:i]
-		}
-	}
-	return desc
-}
-
-// ---- families ----------------------------------------------------------------------
-
-func sizes(thorough bool) []int {
-	s := []int{0, 1, 2, 3, 7, 8, 1499, 1500}
-	if thorough {
-		s = append(s, 9000, 65507, 65527, 65528, 65529, 65535, 65536, 70000)
-	} else {
-		s = append(s, 65527, 65528, 65529, 65535, 65536)
-	}
-	return s
-}
-
-func transportFamily(thorough bool) []built {
-	var out []built
-	for _, n := range sizes(thorough) {
-		for v := 4; v <= 6; v += 2 {
-			ip := func(proto layers.IPProtocol) (gopacket.SerializableLayer, gopacket.LayerType) {
-				if v == 4 {
-					return &layers.IPv4{Version: 4, IHL: 5, TTL: 64, Id: 7, Protocol: proto, SrcIP: s4, DstIP: d4}, layers.LayerTypeIPv4
-				}
-				return &layers.IPv6{Version: 6, HopLimit: 64, NextHeader: proto, SrcIP: s6, DstIP: d6}, layers.LayerTypeIPv6
-			}
-			max4 := 65535 - 20
-			// UDP
-			if v == 6 || n+8 <= max4 {
-				l3, ft := ip(layers.IPProtocolUDP)
-				out = append(out, built{desc: fmt.Sprintf("udp-over-ipv%d: payload %d bytes", v, n), first: ft, ls: []gopacket.SerializableLayer{l3, &layers.UDP{SrcPort: 40001, DstPort: 40002}}, pay: payloadN(n),
-					implicit: map[gopacket.LayerType]bool{layers.LayerTypeIPv6HopByHop: true}})
-			}
-			// TCP
-			if v == 6 || n+20 <= max4 {
-				l3, ft := ip(layers.IPProtocolTCP)
-				out = append(out, built{desc: fmt.Sprintf("tcp-over-ipv%d: payload %d bytes", v, n), first: ft, ls: []gopacket.SerializableLayer{l3, &layers.TCP{SrcPort: 40001, DstPort: 40002, Seq: 1, Ack: 2, ACK: true, Window: 100}}, pay: payloadN(n),
-					implicit: map[gopacket.LayerType]bool{layers.LayerTypeIPv6HopByHop: true}})
-			}
-			// ICMP
-			if n <= 1500 {
-				if v == 4 {
-					l3, ft := ip(layers.IPProtocolICMPv4)
-					out = append(out, built{desc: fmt.Sprintf("icmpv4: payload %d bytes", n), first: ft, ls: []gopacket.SerializableLayer{l3, &layers.ICMPv4{TypeCode: layers.CreateICMPv4TypeCode(8, 0), Id: 3, Seq: 4}}, pay: payloadN(n)})
-				} else {
-					l3, ft := ip(layers.IPProtocolICMPv6)
-					out = append(out, built{desc: fmt.Sprintf("icmpv6: payload %d bytes", n), first: ft, ls: []gopacket.SerializableLayer{l3, &layers.ICMPv6{TypeCode: layers.CreateICMPv6TypeCode(1, 0)}}, pay: payloadN(n + 4)})
-				}
-			}
-		}
-	}
-	return out
-}
-
-// all lists of 0..3 elements over k kinds
-func lists(k, maxLen int) [][]int {
-	out := [][]int{{}}
-	var rec func(p []int)
-	rec = func(p []int) {
-		if len(p) == maxLen {
-			return
-		}
-		for i := 0; i < k; i++ {
-			q := append(append([]int(nil), p...), i)
-			out = append(out, q)
-			rec(q)
-		}
-	}
-	rec(nil)
-	return out
-}
-
-func ipv4OptionFamily() []built {
-	kinds := []layers.IPv4Option{
-		{OptionType: 1, OptionLength: 1},
-		{OptionType: 130, OptionLength: 2, OptionData: []byte{}},
-		{OptionType: 130, OptionLength: 3, OptionData: []byte{9}},
-		{OptionType: 130, OptionLength: 4, OptionData: []byte{9, 8}},
-		{OptionType: 7, OptionLength: 7, OptionData: []byte{4, 1, 2, 3, 4}},
-	}
-	var out []built
-	for _, l := range lists(len(kinds), 3) {
-		var os []layers.IPv4Option
-		tot := 0
-		for _, k := range l {
-			os = append(os, kinds[k])
-			tot += int(kinds[k].OptionLength)
-		}
-		for ; tot%4 != 0; tot++ {
-			os = append(os, kinds[0]) // the caller aligns the list with NOPs: padding is then not needed
-		}
-		ip := &layers.IPv4{Version: 4, TTL: 64, Id: 7, Protocol: layers.IPProtocolUDP, SrcIP: s4, DstIP: d4, Options: os}
-		out = append(out, built{desc: fmt.Sprintf("ipv4-options: %v", l), first: layers.LayerTypeIPv4, ls: []gopacket.SerializableLayer{ip, &layers.UDP{SrcPort: 40001, DstPort: 40002}}, pay: payloadN(5)})
-	}
-	return out
-}
-
-func tcpOptionFamily() []built {
-	kinds := []layers.TCPOption{
-		{OptionType: layers.TCPOptionKindNop, OptionLength: 1},
-		{OptionType: layers.TCPOptionKindMSS, OptionLength: 4, OptionData: []byte{5, 0xb4}},
-		{OptionType: layers.TCPOptionKindWindowScale, OptionLength: 3, OptionData: []byte{7}},
-		{OptionType: layers.TCPOptionKindSACKPermitted, OptionLength: 2},
-		{OptionType: layers.TCPOptionKindTimestamps, OptionLength: 10, OptionData: []byte{1, 2, 3, 4, 5, 6, 7, 8}},
-		{OptionType: 99, OptionLength: 5, OptionData: []byte{1, 2, 3}},
-	}
-	var out []built
-	for _, l := range lists(len(kinds), 3) {
-		var os []layers.TCPOption
-		tot := 0
-		for _, k := range l {
-			os = append(os, kinds[k])
-			tot += int(kinds[k].OptionLength)
-		}
-		for ; tot%4 != 0; tot++ {
-			os = append(os, kinds[0])
-		}
-		ip := &layers.IPv4{Version: 4, IHL: 5, TTL: 64, Id: 7, Protocol: layers.IPProtocolTCP, SrcIP: s4, DstIP: d4}
-		out = append(out, built{desc: fmt.Sprintf("tcp-options: %v", l), first: layers.LayerTypeIPv4, ls: []gopacket.SerializableLayer{ip, &layers.TCP{SrcPort: 40001, DstPort: 40002, Seq: 1, SYN: true, Window: 100, Options: os}}, pay: payloadN(3)})
-	}
-	return out
-}
-
-func ipv6TLVFamily() []built {
-	var out []built
-	// option data lengths 0..7: every residue mod 8 of the extension header length occurs
-	for _, l := range lists(8, 3) {
-		mk := func() (hbh []*layers.IPv6HopByHopOption, dst []*layers.IPv6DestinationOption) {
-			for i, n := range l {
-				d := make([]byte, n)
-				for j := range d {
-					d[j] = byte(0x40 + i*8 + j)
-				}
-				hbh = append(hbh, &layers.IPv6HopByHopOption{OptionType: 0x1e, OptionData: d})
-				dst = append(dst, &layers.IPv6DestinationOption{OptionType: 0x1e, OptionData: d})
-			}
-			return
-		}
-		h, d := mk()
-		ip := &layers.IPv6{Version: 6, HopLimit: 64, NextHeader: layers.IPProtocolIPv6HopByHop, SrcIP: s6, DstIP: d6}
-		hb := &layers.IPv6HopByHop{Options: h}
-		hb.NextHeader = layers.IPProtocolUDP
-		out = append(out, built{desc: fmt.Sprintf("ipv6-hopbyhop-explicit-layer: option data lengths %v", l), first: layers.LayerTypeIPv6, ls: []gopacket.SerializableLayer{ip, hb, &layers.UDP{SrcPort: 40001, DstPort: 40002}}, pay: payloadN(4)})
-		ip2 := &layers.IPv6{Version: 6, HopLimit: 64, NextHeader: layers.IPProtocolIPv6Destination, SrcIP: s6, DstIP: d6}
-		ds := &layers.IPv6Destination{Options: d}
-		ds.NextHeader = layers.IPProtocolUDP
-		out = append(out, built{desc: fmt.Sprintf("ipv6-destination: option data lengths %v", l), first: layers.LayerTypeIPv6, ls: []gopacket.SerializableLayer{ip2, ds, &layers.UDP{SrcPort: 40001, DstPort: 40002}}, pay: payloadN(4)})
-		// the hop-by-hop header given only through IPv6.HopByHop (right after a stack with an explicit one went through the same buffer)
-		h2, _ := mk()
-		hb2 := &layers.IPv6HopByHop{Options: h2}
-		hb2.NextHeader = layers.IPProtocolUDP
-		ip3 := &layers.IPv6{Version: 6, HopLimit: 64, NextHeader: layers.IPProtocolUDP, SrcIP: s6, DstIP: d6, HopByHop: hb2}
-		out = append(out, built{desc: fmt.Sprintf("ipv6-hopbyhop-through-field: option data lengths %v", l), first: layers.LayerTypeIPv6, ls: []gopacket.SerializableLayer{ip3, &layers.UDP{SrcPort: 40001, DstPort: 40002}}, pay: payloadN(4),
-			implicit: map[gopacket.LayerType]bool{layers.LayerTypeIPv6HopByHop: true}})
-	}
-	return out
-}
-
-func ndpFamily() []built {
-	kinds := []layers.ICMPv6Option{
-		{Type: layers.ICMPv6OptSourceAddress, Data: []byte{2, 0, 0, 0, 0, 1}},
-		{Type: layers.ICMPv6OptMTU, Data: []byte{0, 0, 0, 0, 5, 0xdc}},
-		{Type: layers.ICMPv6OptTargetAddress, Data: []byte{2, 0, 0, 0, 0, 2}},
-		{Type: layers.ICMPv6OptPrefixInfo, Data: append([]byte{64, 0xc0, 0, 0, 0, 10, 0, 0, 0, 5, 0, 0, 0, 0}, net.ParseIP("2001:db8::")...)},
-	}
-	var out []built
-	for _, l := range lists(len(kinds), 3) {
-		opts := func() layers.ICMPv6Options {
-			var os layers.ICMPv6Options
-			for _, k := range l {
-				os = append(os, kinds[k])
-			}
-			return os
-		}
-		ip := func() *layers.IPv6 {
-			return &layers.IPv6{Version: 6, HopLimit: 255, NextHeader: layers.IPProtocolICMPv6, SrcIP: s6, DstIP: d6}
-		}
-		msgs := []struct {
-			name string
-			typ  uint8
-			l    gopacket.SerializableLayer
-		}{
-			{"router-advertisement", layers.ICMPv6TypeRouterAdvertisement, &layers.ICMPv6RouterAdvertisement{HopLimit: 64, Flags: 0x80, RouterLifetime: 1800, Options: opts()}},
-			{"router-solicitation", layers.ICMPv6TypeRouterSolicitation, &layers.ICMPv6RouterSolicitation{Options: opts()}},
-			{"neighbor-solicitation", layers.ICMPv6TypeNeighborSolicitation, &layers.ICMPv6NeighborSolicitation{TargetAddress: d6, Options: opts()}},
-			{"neighbor-advertisement", layers.ICMPv6TypeNeighborAdvertisement, &layers.ICMPv6NeighborAdvertisement{Flags: 0x60, TargetAddress: d6, Options: opts()}},
-			{"redirect", layers.ICMPv6TypeRedirect, &layers.ICMPv6Redirect{TargetAddress: d6, DestinationAddress: s6, Options: opts()}},
-		}
-		for _, m := range msgs {
-			out = append(out, built{desc: fmt.Sprintf("ndp-%s: options %v", m.name, l), first: layers.LayerTypeIPv6,
-				ls: []gopacket.SerializableLayer{ip(), &layers.ICMPv6{TypeCode: layers.CreateICMPv6TypeCode(m.typ, 0)}, m.l}, pay: nil})
-		}
-	}
-	return out
-}
-
-func greFamily() []built {
-	var out []built
-	for f := 0; f < 16; f++ {
-		g := &layers.GRE{ChecksumPresent: f&1 != 0, KeyPresent: f&2 != 0, SeqPresent: f&4 != 0, AckPresent: f&8 != 0, Protocol: layers.EthernetTypeIPv4}
-		if g.AckPresent {
-			g.Version = 1
-			g.KeyPresent = true
-			g.Ack = 11
-		}
-		if g.KeyPresent {
-			g.Key = 0x01020304
-		}
-		if g.SeqPresent {
-			g.Seq = 9
-		}
-		ip := &layers.IPv4{Version: 4, IHL: 5, TTL: 64, Protocol: layers.IPProtocolGRE, SrcIP: s4, DstIP: d4}
-		inner := &layers.IPv4{Version: 4, IHL: 5, TTL: 3, Protocol: layers.IPProtocolUDP, SrcIP: d4, DstIP: s4}
-		out = append(out, built{desc: fmt.Sprintf("gre: flags C=%v K=%v S=%v A=%v", g.ChecksumPresent, g.KeyPresent, g.SeqPresent, g.AckPresent), first: layers.LayerTypeIPv4,
-			ls: []gopacket.SerializableLayer{ip, g, inner, &layers.UDP{SrcPort: 40001, DstPort: 40002}}, pay: payloadN(6)})
-	}
-	return out
-}
-
 func constructed(r *report.Run) []enum.Phase {
-	var all []built
-	all = append(all, transportFamily(r.Thorough())...)
-	all = append(all, ipv4OptionFamily()...)
-	all = append(all, tcpOptionFamily()...)
-	all = append(all, ipv6TLVFamily()...)
-	all = append(all, ndpFamily()...)
-	all = append(all, greFamily()...)
+	all := cons.All(r.Thorough())
 	r.Coverage["constructed_cases"] = len(all)
-	r.Coverage["constructed_rule"] = "transport: UDP, TCP, ICMPv4/6 over IPv4 and IPv6 x payload sizes {0,1,2,3,7,8,1499,1500,65527,65528,65529,65535,65536} (jumbograms over IPv6); ipv4-options / tcp-options: every list of 0..3 options over 5 / 6 option kinds (all padding residues); ipv6: hop-by-hop (as explicit layer and through IPv6.HopByHop) and destination headers with every list of 0..3 TLVs of data length 0..7 (all residues mod 8); ndp: the five neighbour-discovery messages x every list of 0..3 options over 4 kinds; gre: all 16 flag combinations. Every case is written with SerializeLayers into ONE re-used buffer and decoded: no error, no truncation, same layer types, same exported fields (lists in order), same payload."
+	r.Coverage["constructed_rule"] = cons.Rule + " Every case is written with SerializeLayers into ONE re-used buffer and decoded: no error, no truncation, same layer types, same exported fields (lists in order), same payload."
 	return []enum.Phase{{Name: "constructed", Len: int64(len(all)), ChunkHint: int64(len(all))/16 + 1,
-		Describe: func(i int64) any { return map[string]any{"constructed": all[i].desc} },
+		Describe: func(i int64) any { return map[string]any{"constructed": all[i].Desc} },
 		Run:      func(i int64, w *enum.Worker) { check(all[i], w) }}}
 }
